@@ -142,7 +142,6 @@ func (s *Script) Compile() (*Compiled, error) {
 		bytecode:      bytecode,
 		globals:       globals,
 		maxAllocs:     s.maxAllocs,
-		fullClone:     true, // we do not share bytecode or global indexes with other clones
 	}, nil
 }
 
@@ -209,7 +208,6 @@ type Compiled struct {
 	globals       []Object
 	maxAllocs     int64
 	lock          sync.RWMutex
-	fullClone     bool
 }
 
 // Run executes the compiled script in the virtual machine.
@@ -277,7 +275,6 @@ func (c *Compiled) Clone() *Compiled {
 		bytecode:      c.bytecode,
 		globals:       make([]Object, len(c.globals)),
 		maxAllocs:     c.maxAllocs,
-		fullClone:     false, // this clone shares bytecode and global indexes with the 'original'
 	}
 	// copy global objects
 	for idx, g := range c.globals {
@@ -298,22 +295,10 @@ func (c *Compiled) ReplaceBuiltinModule(name string, attrs map[string]Object) {
 	c.lock.Lock()
 	defer c.lock.Unlock()
 
-	if !c.fullClone {
-		// To safely modify compiled script internals we need to be sure noone shares
-		// the same bytecode or global indexes.
-		// We do not do full copy during Clone() call to skip additional memory allocations
-		// when they are not needed, leaving Clone() call as optional as it was
-		// before the 'ReplaceBuiltinModule' feature was added.
-
-		indexes := make(map[string]int, len(c.globalIndexes))
-		for name, idx := range c.globalIndexes {
-			indexes[name] = idx
-		}
-		c.globalIndexes = indexes
-		c.bytecode = c.bytecode.Clone()
-
-		c.fullClone = true
-	}
+	// The bytecode may be shared with clones of this script, and with the
+	// script it was cloned from: never modify it in place. Only the constants
+	// are replaced, so a shallow clone of the bytecode is enough.
+	c.bytecode = c.bytecode.Clone()
 
 	c.bytecode.ReplaceBuiltinModule(name, attrs)
 }
